@@ -214,7 +214,9 @@ func (c *Ctx) sym(fr *Frame, call *ast.CallExpr, ce *Callee, args []Value) (stri
 	if ce.Var != nil && ce.Field == "" && R.FCancel != "" && isNamed(ce.Var.Type(), "context.CancelFunc") {
 		// a local copy of the worker's cancel function (read under the lock)
 		if f := c.P.enclosing(ce.Var.Pos()); f != nil {
-			if ok, n := assignedOnlyFrom(f, ce.Var, func(rhs ast.Expr, idx, cnt int) bool { return selField(f.Info(), rhs) == R.FCancel }); ok && n > 0 {
+			if ok, n := assignedOnlyFrom(f, ce.Var, func(rhs ast.Expr, idx, cnt int) bool {
+				return selField(f.Info(), rhs) == R.FCancel || c.isAccessorCall(f.Info(), rhs, R.FCancel)
+			}); ok && n > 0 {
 				return "cancel", true
 			}
 		}
@@ -695,7 +697,49 @@ func (v *vocab) relevant(f *Func) bool {
 			return true
 		}
 	}
-	return false
+	// a pure leaf helper (closeErrorOf(status), statusFromName(name), ...) computes a value from its arguments:
+	// inlining it costs nothing and keeps the value known
+	return v.c.isPureLeaf(f)
+}
+
+// isPureLeaf: a small function of the library that calls nothing (but builtins, conversions and error constructors),
+// touches no field, channel or goroutine: its result depends on its arguments only.
+func (c *Ctx) isPureLeaf(f *Func) bool {
+	if c.cache == nil {
+		c.cache = map[string]any{}
+	}
+	if v, ok := c.cache["pureleaf:"+f.Key]; ok {
+		return v.(bool)
+	}
+	pure := f.Body != nil && f.Lib && f.Decl != nil
+	if pure {
+		info := f.Info()
+		ast.Inspect(f.Body, func(n ast.Node) bool {
+			switch x := n.(type) {
+			case *ast.CallExpr:
+				ce := resolveCallee(info, x)
+				switch {
+				case ce.Builtin != "", ce.Conv:
+				case ce.Key == "errors.New" || ce.Key == "fmt.Errorf" || ce.Key == "fmt.Sprintf":
+				default:
+					pure = false
+				}
+			case *ast.GoStmt, *ast.SendStmt, *ast.DeferStmt, *ast.SelectStmt, *ast.FuncLit:
+				pure = false
+			case *ast.UnaryExpr:
+				if x.Op == token.ARROW {
+					pure = false
+				}
+			case *ast.SelectorExpr:
+				if _, isField := info.Selections[x]; isField {
+					pure = false
+				}
+			}
+			return pure
+		})
+	}
+	c.cache["pureleaf:"+f.Key] = pure
+	return pure
 }
 
 func (v *vocab) seq(rule string, cut bool) *seqRule {
@@ -729,4 +773,31 @@ func (c *Ctx) queueNextKey() string {
 	}
 	c.cache["queueNextKey"] = key
 	return key
+}
+
+// isAccessorCall: e calls a function of the module every return of which hands back the field fk of its receiver
+// (a getter, typically reading under the lock).
+func (c *Ctx) isAccessorCall(info *types.Info, e ast.Expr, fk string) bool {
+	call, ok := ast.Unparen(e).(*ast.CallExpr)
+	if !ok {
+		return false
+	}
+	g := c.P.byObj[resolveCallee(info, call).Key]
+	if g == nil || g.Body == nil || !g.Lib {
+		return false
+	}
+	n, all := 0, true
+	ast.Inspect(g.Body, func(x ast.Node) bool {
+		switch r := x.(type) {
+		case *ast.FuncLit:
+			return false
+		case *ast.ReturnStmt:
+			n++
+			if len(r.Results) != 1 || selField(g.Info(), r.Results[0]) != fk {
+				all = false
+			}
+		}
+		return true
+	})
+	return all && n > 0
 }
